@@ -484,6 +484,24 @@ func checkC18(c *Ctx, p *Prog, r *Result) {
 		r.fail("anchor fdo/sqlite.DB.ReplaceVoucher not found")
 	}
 
+	// setters overwrite
+	r.rule("C18.setters-overwrite", "no Set* method of *sqlite.DB writes with insertOrIgnore (which keeps the first value and silently drops later ones): setters store through the upserting insert, so the latest value is the one read back")
+	r.floor("C18.setters-overwrite", 15)
+	for _, fn := range p.Funcs {
+		if funcPkgPath(fn) != pkg || fn.Signature.Recv() == nil || typeShort(fn.Signature.Recv().Type()) != "fdo/sqlite.DB" || !strings.HasPrefix(fn.Name(), "Set") {
+			continue
+		}
+		var bad []string
+		for _, b := range fn.Blocks {
+			for _, in := range b.Instrs {
+				if call, ok := in.(ssa.CallInstruction); ok && strings.HasSuffix(p.calleeOf(call.Common()).Name, ".insertOrIgnore") {
+					bad = append(bad, p.instrPos(in))
+				}
+			}
+		}
+		r.table(p, "C18.setters-overwrite", p.FuncName(fn), p.Pos(fn.Pos()), len(bad) == 0, "insertOrIgnore at "+strings.Join(bad, ", "))
+	}
+
 	// expired rendezvous blobs are not found
 	sqliteExpiryRules(p, r, c07Rules(), "C18")
 
